@@ -453,6 +453,25 @@ impl MtWorld {
     }
 }
 
+impl MtWorld {
+    // true if the runtime did no work at all during a 400 ms window: every worker is parked, so
+    // nothing that is still outstanding can ever be answered (a stall, not slowness)
+    pub fn quiescent(&self) -> bool {
+        let m = self.rt.metrics();
+        let sample = |m: &tokio::runtime::RuntimeMetrics| -> u64 {
+            let mut t = 0u64;
+            for w in 0..m.num_workers() {
+                t = t.wrapping_add(m.worker_poll_count(w));
+            }
+            t
+        };
+        let a = sample(&m);
+        std::thread::sleep(Duration::from_millis(400));
+        let b = sample(&m);
+        a == b
+    }
+}
+
 impl Drop for MtWorld {
     fn drop(&mut self) {
         for c in self.conns.iter_mut() {
